@@ -72,6 +72,13 @@ def model_runs(ctx, rnd):
         # a two-level tree on one and two faces (split, children, the single-face covering rule)
         ctx.tlc("EdgeQuery", model_cfg([2, 5], 1, 2, 3, 2, 2, 0, [1, 2, INF], [INF, 1, 0], [0, 1], [False], 2, 2, 2, []),
                 workers=12, timeout=2400, heap="8g")
+    # (a') structure only: every antichain of index cells on all six faces, the covering is what
+    # initCovering is specified to produce (complete, tight, disjoint, sorted, <= 6 cells)
+    for (fan, depth, mc) in ([(2, 1, 4)] if q else [(2, 2, 4), (4, 1, 5), (3, 2, 3)]):
+        ctx.tlc("EdgeQuery", vlib.cfg(constants=dict(
+            Faces=set(range(1, 7)), Fanout=fan, Depth=depth, MaxCells=mc, NEdges=1, DMax=1, NShapes=0,
+            MaxResultsSet={1}, LimitSet={INF}, MaxErrSet={0}, BruteSet="{FALSE}", MinEnq=2, MaxDisc=1, MaxSpan=1,
+            AsImplemented="{}"), invariants=["CoveringOK"], constraints=["CellsOnly"]), workers=4 if q else 10, timeout=900)
     # (b) random walks over larger scenes: all six faces, two tree levels, three edges, IsDistanceLess options
     sims = [
         ([1, 2, 3, 4, 5, 6], 0, 2, 6, 3, 3, 1, [1, 2, 3, INF], [INF, 2, 0], [0, 1, INF], [False, True], 2, 2, 2),
